@@ -11,7 +11,7 @@ class A(Adapter):
     name = "sokoban"
     lean = "sokoban"
     serves = {"C01", "C05", "C07", "C09", "C10", "C11", "C12"}
-    ops = ("state", "step", "judge", "instance", "bounds")
+    ops = ("state", "step", "judge", "instance", "bounds", "spec")
     has_mask = False
     terminate_on_invalid = False
     max_steps = 60
@@ -221,9 +221,30 @@ class A(Adapter):
         ctx.nontrivial.add((self.name, what, str(js["variable_grid"]), int(a)))
         ctx.count(f"{self.name}.{what}.{'moved' if impl_state['variable_grid'] != js['variable_grid'] else 'stayed'}")
 
+    def _solution_flag(self, ctx, cfg, env, drv, s, ts, where):
+        """wave 3 (C06): the model's `IsSolution` (consistent board, every box on a target — theorem
+        sokoban_step_complete_is_solution) against the implementation's own `solved` flag of the timestep"""
+        m = drv.batch([dict(op="sokoban.state", cfg=cfg.cfg, state=self.ser_state(env, s))])[0]
+        ctx.evaluations += 1
+        if isinstance(m, DriverError):
+            ctx.disagree(self.name, f"state op rejects a {where} state: {m}", {"state": self.ser_state(env, s)})
+            return
+        impl = bool(np.asarray(ts.extras["solved"]))
+        if m["solution"] != impl:
+            ctx.fail(self.name, "solution_flag", f"{where}: the implementation says solved={impl}, the model's IsSolution says {m['solution']}",
+                     {"env": self.name, "config": cfg.cid, "state": self.ser_state(env, s)})
+        ctx.nontrivial.add((self.name, "w3solution", where, str(self.ser_state(env, s)["variable_grid"])))
+
     def synthetic(self, ctx, cfg, env, runner, rng, drv):
         import jax
         from envlib import rollouts
+
+        # wave 3: declared specs vs the model's obsSpec, reset timestep, observation arrays and membership
+        # (harness/wave3_routing.py; theorems sokoban_obsSpec_generated, sokoban_*_obs_valid, sokoban_reset_obs_faithful)
+        import wave3_routing as w3
+
+        w3.check_specs(ctx, self, cfg, env, drv)
+        w3.check_reset_and_obs(ctx, self, cfg, env, runner, rng, drv, 2 if ctx.quick else 6, 8 if ctx.quick else 40)
 
         base, _ = runner.reset(jax.random.PRNGKey(int(rng.integers(1 << 30))))
         acts = self._acts(env)
@@ -251,6 +272,7 @@ class A(Adapter):
                 s2, ts2 = runner.step(s, np.int32(a))
                 self._check(ctx, cfg, env, drv, s, a, s2, ts2, "solution")
                 s, ts = s2, ts2
+                self._solution_flag(ctx, cfg, env, drv, s, ts, "scripted solution")
             if int(ts.step_type) != 2 or not self.completed(env, s, ts):
                 ctx.fail(self.name, "solution_not_recognised", "the scripted solution of the SimpleSolve level does not end the episode",
                          {"env": self.name, "config": cfg.cid})
